@@ -72,6 +72,22 @@ def gen_cc(rng):
         k = rng.randint(1, max(1, n // 3))
         for i in range(k):
             H[n - 1 - i] = H[n - 1 - k] if n - 1 - k >= 0 else H[-1]
+    if shape == "collinear" and rng.random() < 0.5:
+        # a small stream (enthalpy in MW): a straight run with gentle knees, each 1e-5 .. 1e-3 K off the chord of its
+        # neighbours - far more than 1e-6 K, although deviation x chord width is tiny
+        m = rng.choice([1e-4, 1e-5, 3e-4])
+        H = [H[0] * 1e-3]
+        for i in range(1, n):
+            H.append(H[-1] + m * (T[i - 1] - T[i]))
+        for i in range(1, n - 1):
+            if rng.random() < 0.4:
+                H[i] += m * rng.choice([1e-5, 1e-4, 1e-3]) * rng.choice([1, -1])
+        shape = "gentle_knees_small_scale"
+    if shape in ("generic", "flat_ends", "t_plateau") and rng.random() < 0.4:
+        # the same curve with enthalpies in MW (or in W): the 1e-6 K criterion must not depend on the enthalpy scale
+        k = rng.choice([1e-3, 1e-3, 1e-4, 1e3])
+        H = [h * k for h in H]
+        shape = shape + "_scaled"
     return {"kind": "clean", "T": T, "H": H, "shape": shape}
 
 
@@ -191,6 +207,28 @@ def locally_collinear(pairs, kept):
         elif abs(y2 - (y1 + (y3 - y1) * (x2 - x1) / (x3 - x1))) > TOL * 1.001:
             return False
     return True
+
+
+def clean_fragile(case):
+    """A threshold of clean_composite_curve is met exactly (in exact arithmetic): the variance of H equals TOL, an end
+    distance equals TOL, or an interior point is exactly TOL off the chord of its neighbours. Floats decide such a tie
+    either way (H = [7.0, 7.002]: variance exactly 1e-6), so model and implementation may legitimately differ."""
+    from fractions import Fraction as Fr
+    H = [Fr(repr(float(h))) for h in case["H"]]; T = [Fr(repr(float(t))) for t in case["T"]]
+    tol, eps = Fr(repr(TOL)), Fr(1, 10**12)
+    n = len(H)
+    if n == 0:
+        return False
+    m = sum(H) / n
+    var = sum((h - m) ** 2 for h in H) / n
+    near = lambda v: abs(abs(v) - tol) <= eps
+    if near(var) or any(near(h - H[0]) or near(h - H[-1]) or near(h) for h in H):
+        return True
+    for i in range(1, n - 1):
+        x1, x2, x3, y1, y2, y3 = H[i - 1], H[i], H[i + 1], T[i - 1], T[i], T[i + 1]
+        if x1 != x3 and near(y2 - (y1 + (y3 - y1) * (x2 - x1) / (x3 - x1))):
+            return True
+    return False
 
 
 def clean_oracle(case, res):
@@ -325,7 +363,7 @@ def run(ctx: Ctx):
             my = [parse_r(v) for v in toks[0].split()[1:]]
             mx = [parse_r(v) for v in toks[1].split()] if len(toks) > 1 else []
             if len(my) != len(res[0]) or any(not close(a, b, atol=1e-9) for a, b in zip(my, res[0])) or any(not close(a, b, atol=1e-9) for a, b in zip(mx, res[1])):
-                if c.get("shape") in ("tiny_extent",):
+                if c.get("shape") in ("tiny_extent",) or clean_fragile(c):
                     ctx.fragile_skipped += 1          # np.isclose / variance thresholds within float rounding
                 else:
                     ctx.disagree(c, res, m, "clean kept points")
